@@ -1,6 +1,6 @@
 /* C17 dispatch: libmy/crc32c.c (real) selects exactly one of the two implementations; mtbl_crc32c forwards its arguments. */
-#include "/repo/libmy/crc32c.c"
-#include "/repo/mtbl/crc32c_wrap.c"
+#include "libmy/crc32c.c"
+#include "mtbl/crc32c_wrap.c"
 #include "spec/ghost.h"
 static const uint8_t *vg_buf_seen; static size_t vg_len_seen; static int vg_which; static uint32_t vg_ret;
 uint32_t my_crc32c_slicing(const uint8_t *b, size_t n) { vg_which = 1; vg_buf_seen = b; vg_len_seen = n; vg_ret = nondet_u32(); return vg_ret; }
